@@ -65,3 +65,47 @@ def op_sequences(h):
         h.check(pm == sum(c[1] for c in ref), "egress.pending-messages", f"pending_messages={pm} expected {sum(c[1] for c in ref)}")
         h.check(tb == sum(len(c[0]) - c[2] for c in ref), "egress.total-pending-bytes")
         h.check(h.method(EB, "is_empty", eb) == (not ref), "egress.is-empty")
+
+
+def replay_op_sequences(model, params, role):
+    d = dict(map(tuple, model.get("_choices", [])))
+    k = params.get("ops", 5)
+    lines, ref, want = ["eb_new"], [], []
+    for step in range(k):
+        if f"op{step}" not in d:
+            break
+        op = d[f"op{step}"]
+        if op in (0, 1):
+            n = 1 + d.get(f"len{step}", 0)
+            hx = model.get(f"c{step}", "")
+            data = (bytes.fromhex(hx) if isinstance(hx, str) else b"")[:n]
+            data = data + bytes(n - len(data))
+            if op == 0:
+                cnt = d.get(f"cnt{step}", 0)
+                lines.append(f"eb_push {data.hex()} {cnt}")
+                ref.append([data, cnt, 0])
+            else:
+                lines.append(f"eb_prio {data.hex()}")
+                ref.insert(1 if (ref and ref[0][2] > 0) else 0, [data, 0, 0])
+        else:
+            avail = sum(len(c[0]) - c[2] for c in ref)
+            if avail == 0:
+                continue
+            n = 1 + d.get(f"w{step}", 0)
+            lines.append(f"eb_write {n}")
+            want.append("slice " + ref[0][0][ref[0][2]:].hex())
+            left, popped = n, 0
+            while left > 0 and ref:
+                rem = len(ref[0][0]) - ref[0][2]
+                if left >= rem:
+                    left -= rem
+                    popped += ref[0][1]
+                    ref.pop(0)
+                else:
+                    ref[0][2] += left
+                    left = 0
+            want.append(f"advanced popped={popped} pending={sum(c[1] for c in ref)} bytes={sum(len(c[0]) - c[2] for c in ref)}")
+    def pred(out):
+        got = [l.strip() for l in out.splitlines() if l.startswith(("slice ", "advanced "))]
+        return got != want
+    return "\n".join(lines) + "\n", pred, "operation sequence replayed natively against the reference byte stream"
